@@ -19,6 +19,31 @@
 (*   callg(t, v, w, id) -- `g<t>()`: a call of the nested function defined  *)
 (*                    by statement t (w: it is a defn); the use / the      *)
 (*                    assignment inside g<t> happens here, at the call     *)
+(* Binding forms other than plain assignment (slice "binders"):             *)
+(*   aug(v, id)     -- `v += 1`: reads v (use id), then binds v (def id)    *)
+(*   import(v, id)  -- `import os as v`                                    *)
+(*   ifw(v, id, body, orelse)   -- `if (v := cond()):`  walrus, then if    *)
+(*   withas(supp, v, id, body)  -- `with cm() as v:`  bound after __enter__ *)
+(*   forv(v, id, body, orelse)  -- `for v in it():`  bound per iteration   *)
+(*   exas(v, id)    -- first pseudo-statement of a handler block:           *)
+(*                     `except Exception as v:`; v is bound on entry and    *)
+(*                     UNBOUND again on every way out of the handler        *)
+(*   match(v, id, cases) -- `match subj():` with cases [pat, guard, id, body]: *)
+(*                     pat "cap" = `case v` (always matches, binds v),      *)
+(*                     "seq" = `case [v]` (may fail; binds v on success),   *)
+(*                     "wild" = `case _`; guard = `if cond()`.  A capture   *)
+(*                     is bound BEFORE the guard runs and stays bound when  *)
+(*                     the guard fails and a later case (or none) is taken  *)
+(* Inner scopes inside the function (slice "inner"):                       *)
+(*   cuse(v, id)    -- v read inside a comprehension element / the body of  *)
+(*                     a lambda that is called at once: a use now          *)
+(*   citer(v, id)   -- v read in the FIRST iterable of a comprehension      *)
+(*                     (evaluated in the enclosing function): a use now    *)
+(*   cbind(v, id)   -- a comprehension target / lambda parameter / class-  *)
+(*                     body assignment named v: does not bind the          *)
+(*                     function's v                                        *)
+(*   cwal(v, id)    -- `[(v := 0) for _ in it()]`: binds the FUNCTION's v,  *)
+(*                     once per iteration (possibly never)                 *)
 (* An environment maps each variable to the id of the assignment that      *)
 (* last bound it, 0 = unbound.  Exec(block, envs, mode) returns, for the   *)
 (* set of environments in which the block may start, the environments of   *)
@@ -37,6 +62,11 @@ EXTENDS Integers, Sequences, FiniteSets, TLC
 Vars == {"x", "y"}
 Unbound == 0
 
+\* statement kinds that share a block structure
+IfKinds == {"if", "ifw"}
+LoopKinds == {"while", "for", "forv"}
+WithKinds == {"with", "withas"}
+
 Out(norm, brk, cont, ret, exc, seen) ==
     [norm |-> norm, brk |-> brk, cont |-> cont, ret |-> ret, exc |-> exc, seen |-> seen]
 NoOut == Out({}, {}, {}, {}, {}, {})
@@ -48,7 +78,8 @@ Merge(a, b) == Out(a.norm \cup b.norm, a.brk \cup b.brk, a.cont \cup b.cont, a.r
 Then(first, second) == Out(second.norm, first.brk \cup second.brk, first.cont \cup second.cont,
                            first.ret \cup second.ret, first.exc \cup second.exc, first.seen \cup second.seen)
 
-RECURSIVE Exec(_, _, _), ExecStmt(_, _, _), LoopHeads(_, _, _, _), ExecHandlers(_, _, _, _)
+RECURSIVE Exec(_, _, _), ExecStmt(_, _, _), LoopHeads(_, _, _, _), ExecHandlers(_, _, _, _), ExecHandler(_, _, _),
+          ExecCases(_, _, _, _)
 
 MayRaiseAnywhere(mode) == mode = "liberal"
 
@@ -64,11 +95,36 @@ LoopHeads(body, heads, mode, fuel) ==
         next == heads \cup b.norm \cup b.cont
     IN IF next = heads \/ fuel = 0 THEN [heads |-> heads, b |-> b] ELSE LoopHeads(body, next, mode, fuel - 1)
 
+\* one handler block.  `except E as v:` (first pseudo-statement exas) binds v when the handler is entered and
+\* deletes it on EVERY way out of the handler (language reference 8.4: the body is wrapped in try/finally: del v)
+ExecHandler(h, envs, mode) ==
+    IF h # << >> /\ h[1].k = "exas"
+    THEN LET v == h[1].v
+             r == Exec(Tail(h), {[e EXCEPT ![v] = h[1].id] : e \in envs}, mode)
+             U(E) == {[e EXCEPT ![v] = Unbound] : e \in E}
+         IN Out(U(r.norm), U(r.brk), U(r.cont), U(r.ret), U(r.exc),
+                r.seen \cup (IF envs = {} THEN {} ELSE {<<0 - h[1].id, 0>>}))
+    ELSE Exec(h, envs, mode)
+
 \* which handlers may run for an exception raised in the try body
 ExecHandlers(handlers, envs, mode, idx) ==
     IF idx > Len(handlers) THEN NoOut
-    ELSE IF mode = "strict" THEN (IF idx = 1 THEN Exec(handlers[1], envs, mode) ELSE NoOut)
-    ELSE Merge(Exec(handlers[idx], envs, mode), ExecHandlers(handlers, envs, mode, idx + 1))
+    ELSE IF mode = "strict" THEN (IF idx = 1 THEN ExecHandler(handlers[1], envs, mode) ELSE NoOut)
+    ELSE Merge(ExecHandler(handlers[idx], envs, mode), ExecHandlers(handlers, envs, mode, idx + 1))
+
+\* the cases of a match statement from case idx on, for the environments E in which all earlier cases failed
+\* (language reference 8.6: cases are tried in order; a successful pattern binds its names, then the guard is
+\* evaluated; if the guard is false the next case is tried WITH the bindings in place; no case: fall through)
+ExecCases(s, idx, E, mode) ==
+    IF idx > Len(s.cases) THEN Out(E, {}, {}, {}, {}, {})
+    ELSE LET c == s.cases[idx]
+             binds == c.pat \in {"cap", "seq"}
+             matched == IF binds THEN {[e EXCEPT ![s.v] = c.id] : e \in E} ELSE E
+             failed == IF c.pat = "seq" THEN E ELSE {}
+             b == Exec(c.body, matched, mode)
+             rest == ExecCases(s, idx + 1, failed \cup (IF c.guard THEN matched ELSE {}), mode)
+             raises == (IF c.guard THEN matched ELSE {}) \cup (IF MayRaiseAnywhere(mode) THEN E \cup matched ELSE {})
+         IN Merge(Merge(b, rest), Out({}, {}, {}, {}, raises, IF binds /\ E # {} THEN {<<0 - c.id, 0>>} ELSE {}))
 
 ExecStmt(s, envs, mode) ==
     LET pre == IF MayRaiseAnywhere(mode) THEN envs ELSE {}      \* exception before the statement executes
@@ -90,6 +146,45 @@ ExecStmt(s, envs, mode) ==
             ELSE LET bound == {e \in envs : e[s.v] # Unbound}       \* reading an unbound cell raises NameError
                  IN Out(bound, {}, {}, {}, IF MayRaiseAnywhere(mode) THEN envs ELSE envs \ bound,
                         {<<s.t, e[s.v]>> : e \in envs})
+      \* ---- other binding forms ----
+      \* `v += 1`: reading an unbound v raises NameError, so only the bound environments go on (strict); the liberal
+      \* graph lets every environment go on
+      [] s.k = "aug" ->
+            LET bound == {e \in envs : e[s.v] # Unbound}
+                src == IF mode = "strict" THEN bound ELSE envs
+                asg == {[e EXCEPT ![s.v] = s.id] : e \in src}
+            IN Out(asg, {}, {}, {}, IF MayRaiseAnywhere(mode) THEN envs \cup asg ELSE envs \ bound,
+                   {<<s.id, e[s.v]>> : e \in envs} \cup (IF src = {} THEN {} ELSE {<<0 - s.id, 0>>}))
+      \* an import statement is a call (it may raise before it binds)
+      [] s.k = "import" -> Out(assigned, {}, {}, {}, IF MayRaiseAnywhere(mode) THEN envs \cup assigned ELSE envs,
+                               IF envs = {} THEN {} ELSE {<<0 - s.id, 0>>})
+      \* `if (v := cond()):` -- cond() is a call, then v is bound, then one of the branches runs
+      [] s.k = "ifw" ->
+            LET b == Exec(s.body, assigned, mode)
+                o == Exec(s.orelse, assigned, mode)
+            IN Merge(Merge(b, o), Out({}, {}, {}, {}, IF MayRaiseAnywhere(mode) THEN envs \cup assigned ELSE envs,
+                                      IF envs = {} THEN {} ELSE {<<0 - s.id, 0>>}))
+      \* `with cm() as v:` -- cm() and __enter__ are calls, then v is bound, then the body runs
+      [] s.k = "withas" ->
+            LET b == Exec(s.body, assigned, mode)
+            IN Out(b.norm \cup (IF s.supp THEN b.exc ELSE {}), b.brk, b.cont, b.ret,
+                   b.exc \cup envs \cup (IF MayRaiseAnywhere(mode) THEN assigned ELSE {}),
+                   b.seen \cup (IF envs = {} THEN {} ELSE {<<0 - s.id, 0>>}))
+      \* `for v in it():` -- v is bound at the start of every iteration, after next() returned
+      [] s.k = "forv" ->
+            ExecStmt([k |-> "for", id |-> s.id, body |-> <<[k |-> "assign", v |-> s.v, id |-> s.id]>> \o s.body,
+                      orelse |-> s.orelse], envs, mode)
+      \* `match subj():` -- subj() is a call
+      [] s.k = "match" -> Merge(ExecCases(s, 1, envs, mode), Out({}, {}, {}, {}, envs, {}))
+      \* ---- inner scopes ----
+      \* a read of v from a comprehension element / an immediately called lambda / a class body happens now; the
+      \* statement contains a call (it(), the lambda, the metaclass)
+      [] s.k \in {"cuse", "citer"} -> Out(envs, {}, {}, {}, envs, {<<s.id, e[s.v]>> : e \in envs})
+      \* a comprehension target or a class-body assignment named v does not touch the function's v
+      [] s.k = "cbind" -> Out(envs, {}, {}, {}, envs, {})
+      \* a walrus inside a comprehension binds the function's v once per iteration: never, if it() is empty
+      [] s.k = "cwal" -> Out(envs \cup assigned, {}, {}, {}, envs \cup assigned,
+                             IF envs = {} THEN {} ELSE {<<0 - s.id, 0>>})
       [] s.k = "return" -> Out({}, {}, {}, envs, pre, {})
       [] s.k = "raise"  -> Out({}, {}, {}, {}, envs, {})
       [] s.k = "break"  -> Out({}, envs, {}, {}, pre, {})
